@@ -85,6 +85,19 @@ func (C11) Gen(t *tape.Tape, tier string) any {
 	if sc.SameOpts {
 		sc.SrcW = sc.DstW
 		sc.SrcW.MaxRowsPerGroup = []int64{0, 50, 333}[t.Draw(3)]
+		if t.Chance(1, 4) {
+			// same layout, other statistics settings: the page index of a source
+			// written without limit against a destination that asks for short bounds
+			sc.SrcW.IndexSizeLimit = 0
+			sc.DstW.IndexSizeLimit = []int{1, 2, 4}[t.Draw(3)]
+		}
+		if len(sc.DstW.Bloom) > 0 && t.Chance(1, 3) {
+			// the same filters, stored compressed by one side only
+			sc.SrcW.BloomGzip, sc.DstW.BloomGzip = false, true
+			if t.Bool() {
+				sc.SrcW.BloomGzip, sc.DstW.BloomGzip = true, false
+			}
+		}
 	} else {
 		sc.SrcW = gen.GenWOpts(t, sh)
 		if t.Chance(1, 3) {
